@@ -1149,6 +1149,171 @@ async def serial_case(ctx, stream: bytes, chunk_sizes: list[int], writes: list[s
     ctx.case(("serial", stream, tuple(chunk_sizes[:20]), tuple(writes)), nontrivial=True, sample=case)
 
 
+def abandoned_connection_case(ctx, variant: str) -> None:
+    """An application whose event loop died (asyncio.run ended by an error) never left the transport cleanly; it starts a
+    new loop and connects again with the SAME transport object while the gateway is not reachable: a failed connection
+    attempt is a TransportError - whatever the object still holds from the dead loop - and a later attempt succeeds."""
+    from aiomysensors.transport.tcp import TCPTransport
+
+    listener = socket.socket()
+    listener.setsockopt(socket.SOL_SOCKET, socket.SO_REUSEADDR, 1)
+    listener.bind(("127.0.0.1", 0))
+    listener.listen(8)
+    listener.settimeout(20)
+    port = listener.getsockname()[1]
+    spare = socket.socket()
+    spare.bind(("127.0.0.1", 0))
+    closed_port = spare.getsockname()[1]
+    spare.close()
+    case = {"engine": "abandoned-connection", "variant": variant}
+    ctx.case(("abandoned-connection", variant), nontrivial=True, sample=case)
+    transport = TCPTransport("127.0.0.1", port)
+    peers = []
+    try:
+        async def first() -> None:
+            await asyncio.wait_for(transport.connect(), 20)
+            await transport.write("1;1;1;0;2;1\n")
+            if variant == "pending-read":
+                task = asyncio.ensure_future(transport.read())
+                await asyncio.sleep(0.01)
+                _ = task
+            raise KeyError("the application dies without leaving the transport")
+
+        loop = asyncio.new_event_loop()
+        try:
+            loop.run_until_complete(first())
+        except KeyError:
+            pass
+        except (asyncio.TimeoutError, OSError) as err:
+            ctx.skip("abandoned-connection", f"set-up connect failed: {err!r:.80}")
+            return
+        finally:
+            for task in asyncio.all_tasks(loop):
+                task.cancel()
+            if variant != "loop-left-open":
+                loop.close()
+        peers.append(listener.accept()[0])
+
+        async def second() -> dict:
+            out: dict = {}
+            transport.port = closed_port
+            ctx.clause("connect-failure-is-transport-error")
+            try:
+                await asyncio.wait_for(transport.connect(), 20)
+                out["refused"] = "returned"
+            except asyncio.TimeoutError:
+                out["refused"] = "watchdog"
+            except BaseException as exc:  # noqa: BLE001
+                out["refused"] = exc
+            transport.port = port
+            try:
+                await asyncio.wait_for(transport.connect(), 20)
+                peer = listener.accept()[0]
+                peers.append(peer)
+                peer.sendall(b"5;0;1;0;2;again\n")
+                out["line"] = await asyncio.wait_for(transport.read(), 20)
+                await asyncio.wait_for(transport.disconnect(), 20)
+            except asyncio.TimeoutError:
+                out["again"] = "watchdog"
+            except BaseException as exc:  # noqa: BLE001
+                out["again"] = exc
+            return out
+
+        loop2 = asyncio.new_event_loop()
+        try:
+            out = loop2.run_until_complete(second())
+        finally:
+            loop2.close()
+            if variant == "loop-left-open":
+                loop.close()
+        ctx.clause("connect-under-new-loop-after-abandoned-session")
+        refused = out.get("refused")
+        if refused == "watchdog" or out.get("again") == "watchdog":
+            ctx.obs("abandoned-connection-watchdog")
+        if refused == "returned":
+            ctx.violation("connect-failure-succeeded", "connect to a closed port returned", case)
+        elif isinstance(refused, BaseException) and not is_transport_error(refused):
+            ctx.violation("connect-failure-not-transport-error",
+                          f"the transport still held the connection of a dead event loop; connect to a refusing port under "
+                          f"the new loop raised {type(refused).__name__}: {refused!s:.80}", case)
+        again = out.get("again")
+        if isinstance(again, BaseException):
+            ctx.violation("reconnect-under-new-loop-failed", f"connecting again once the gateway is reachable raised "
+                                                             f"{type(again).__name__}: {again!s:.80}", case)
+        elif again is None and out.get("line") != "5;0;1;0;2;again\n":
+            ctx.violation("reads-differ-from-stream", f"after reconnecting under the new loop read {out.get('line')!r}", case)
+    finally:
+        for peer in peers:
+            peer.close()
+        listener.close()
+
+
+async def serial_url_case(ctx, lines: list[str], write: str) -> None:
+    """The serial port is whatever string pyserial opens - also its URL forms (a ser2net / esp-link bridge:
+    'socket://host:port').  The string reaches pyserial as given: the lines the bridge sends are read, a written line arrives."""
+    from aiomysensors.transport.serial import SerialTransport
+
+    received = bytearray()
+    done = asyncio.Event()
+
+    async def handle(reader: asyncio.StreamReader, writer: asyncio.StreamWriter) -> None:
+        writer.write("".join(lines).encode())
+        await writer.drain()
+        while not received.endswith(b"\n"):
+            chunk = await reader.read(4096)
+            if not chunk:
+                break
+            received.extend(chunk)
+        done.set()
+        await reader.read()  # until the client closes
+        writer.close()
+
+    server = await asyncio.start_server(handle, "127.0.0.1", 0)
+    port = server.sockets[0].getsockname()[1]
+    url = f"socket://127.0.0.1:{port}"
+    case = {"engine": "serial-url", "url": "socket://127.0.0.1:<port>", "lines": lines, "write": write}
+    ctx.case(("serial-url", tuple(lines), write), nontrivial=True, sample=case)
+    transport = SerialTransport(url)
+    try:
+        try:
+            await asyncio.wait_for(transport.connect(), 30)
+        except asyncio.TimeoutError:
+            ctx.obs("serial-url-watchdog")
+            return
+        except Exception as exc:  # noqa: BLE001
+            ctx.violation("serial-url-not-opened", f"SerialTransport({case['url']!r}).connect() raised {type(exc).__name__}: "
+                                                   f"{exc!s:.100} although the bridge is listening", case)
+            return
+        ctx.clause("serial-url")
+        got = []
+        try:
+            for _ in lines:
+                got.append(await asyncio.wait_for(transport.read(), 30))
+            await transport.write(write)
+            await asyncio.wait_for(done.wait(), 30)
+        except asyncio.TimeoutError:
+            ctx.obs("serial-url-watchdog")
+            return
+        except Exception as exc:  # noqa: BLE001
+            ctx.violation("serial-url-io-raised", f"{type(exc).__name__}: {exc!s:.100} after reading {got}", case)
+            return
+        ctx.clause("reads-vs-reference")
+        if got != lines:
+            ctx.violation("reads-differ-from-stream", f"serial URL port: read {got!r:.160}, the bridge sent {lines!r:.160}", case)
+        ctx.clause("bytes-at-peer")
+        if bytes(received) != write.encode():
+            ctx.violation("bytes-at-peer-differ", f"serial URL port: wrote {write!r}, the bridge received {bytes(received)!r:.100}", case)
+    finally:
+        try:
+            await asyncio.wait_for(transport.disconnect(), 30)
+        except asyncio.TimeoutError:
+            ctx.obs("serial-url-watchdog")
+        except Exception as exc:  # noqa: BLE001
+            ctx.violation("disconnect-raises", f"serial URL disconnect raised {type(exc).__name__}: {exc!s:.80}", case)
+        server.close()
+        await server.wait_closed()
+
+
 async def misuse_cases(ctx) -> None:
     """Use before connect, refused connect, missing device, disconnect before connect."""
     from aiomysensors.transport.serial import SerialTransport
@@ -1297,6 +1462,10 @@ def run_case(ctx, case: dict) -> None:
     elif case.get("engine") == "tcp-reconnect":
         arun(reconnect_case(ctx, case["first_end"], bytes.fromhex(case["stream"]), case["writes"],
                             case.get("disconnect_between", True)))
+    elif case.get("engine") == "abandoned-connection":
+        abandoned_connection_case(ctx, case["variant"])
+    elif case.get("engine") == "serial-url":
+        arun(serial_url_case(ctx, case["lines"], case["write"]))
     elif case.get("engine") == "serial-pty" and not str(case["stream"]).startswith("<"):
         arun(serial_case(ctx, bytes.fromhex(case["stream"]), case["chunks"], case["writes"]))
     elif case.get("engine") == "retargeted":
@@ -1409,6 +1578,19 @@ def run(ctx) -> None:
             for i in range(ctx.pick(3, 40) // ctx.shard_count + 1):
                 two_loop_backpressure(ctx, rng.choice([3, 5, 8]), rng.choice([2000, 20000, 70000]),
                                       ctx.seed * 100000 + ctx.shard_index * 1000 + 500 + i, loops=rng.choice([2, 2, 3]))
+        for i, variant in enumerate(("plain", "pending-read", "loop-left-open")):
+            if ctx.mine(i + 6):
+                try:
+                    abandoned_connection_case(ctx, variant)
+                except OSError as err:
+                    ctx.skip("abandoned-connection", str(err))
+        for i, (lines, write) in enumerate([(["1;0;1;0;2;hello\n", "2;255;3;0;0;77\n"], "9;9;1;0;2;w\n"),
+                                            (["0;255;3;0;14;Gateway startup complete.\n"], "0;255;3;0;2;\n")]):
+            if ctx.mine(i + 5):
+                try:
+                    arun(serial_url_case(ctx, lines, write))
+                except OSError as err:
+                    ctx.skip("serial-url", str(err))
         # pty
         try:
             a, b = os.openpty()
